@@ -367,13 +367,16 @@ def solve_sat(
 
     def reduce_db():
         nonlocal learned, lbd_scores
-        if len(learned) < 2000:
+        # Blocking clauses (lbd 0) are permanent: they neither trigger a reduction nor use up the quota of kept clauses
+        n_blocking = len(all_solutions)
+        if len(learned) - n_blocking < 2000:
             return
 
         indexed = sorted(enumerate(learned), key=lambda x: (lbd_scores[x[0]], len(x[1])))
+        keep_quota = n_blocking + (len(indexed) - n_blocking) // 2
         keep, keep_lbd = [], []
         for i, (orig_idx, clause) in enumerate(indexed):
-            if i < len(indexed) // 2 or lbd_scores[orig_idx] <= 3:
+            if i < keep_quota or lbd_scores[orig_idx] <= 3:
                 keep.append(clause)
                 keep_lbd.append(lbd_scores[orig_idx])
 
